@@ -819,7 +819,14 @@ where
                     Ok(Some(Ev::Scalar { value, style, .. }))
                         if scalar_is_nullish(value, style) =>
                     {
-                        let _ = self.src.next();
+                        // Consume the null document. The event source re-checks the
+                        // reader for a stored I/O error here, so the result must not be
+                        // dropped: it is the only place that error would surface.
+                        if let Err(e) = self.src.next() {
+                            self.finished = true;
+                            let _ = self.src.finish();
+                            return Some(Err(e));
+                        }
                         continue;
                     }
                     Ok(Some(_)) => {
@@ -1193,7 +1200,14 @@ where
                     Ok(Some(Ev::Scalar { value, style, .. }))
                         if scalar_is_nullish(value, style) =>
                     {
-                        let _ = self.src.next();
+                        // Consume the null document. The event source re-checks the
+                        // reader for a stored I/O error here, so the result must not be
+                        // dropped: it is the only place that error would surface.
+                        if let Err(e) = self.src.next() {
+                            self.finished = true;
+                            let _ = self.src.finish();
+                            return Some(Err(e));
+                        }
                         continue;
                     }
                     Ok(Some(_)) => {
@@ -1921,7 +1935,14 @@ where
                     Ok(Some(Ev::Scalar { value, style, .. }))
                         if scalar_is_nullish(value, style) =>
                     {
-                        let _ = self.src.next();
+                        // Consume the null document. The event source re-checks the
+                        // reader for a stored I/O error here, so the result must not be
+                        // dropped: it is the only place that error would surface.
+                        if let Err(e) = self.src.next() {
+                            self.finished = true;
+                            let _ = self.src.finish();
+                            return Some(Err(e));
+                        }
                         continue;
                     }
                     Ok(Some(_)) => {
